@@ -213,15 +213,15 @@ Print Assumptions C16_vcf_import_grouped.
     (CHROM, POS, start, end, ID) through the selectors regenerated from BOTH from_vcf bodies (the k_vcf_ definitions of Gen/C16_Kernel.v), so these
     statements are about the attribute each field is read from in the current source *)
 Theorem C16_kernel_vcf_fields : forall (phased : bool) (l : vline),
-  rec_of_line phased l = mkV (l_chrom l) (wrap32 (l_pos l)) (Some (id_text l)) (l_gt l)
+  rec_of_line phased l = mkV (l_chrom l) (l_pos l) (Some (id_text l)) (l_gt l)
   /\ layout_ok true = true /\ layout_ok false = true.
 Proof. intros phased l. split; [apply rec_of_line_model | exact layout_current]. Qed.
 Print Assumptions C16_kernel_vcf_fields.
 
 (** every array is the file, line by line — CHROM, POS, ID ('.' read as "None"), the GT calls — whatever REF and ALT are
-    (deletions, insertions, MNPs, several ALT alleles), for every coordinate a 32-bit POS holds *)
+    (deletions, insertions, MNPs, several ALT alleles), for EVERY coordinate: the importers read variant.start + 1 (64-bit), so the
+    former guard "a coordinate a 32-bit POS holds" is gone *)
 Theorem C16_vcf_text_import_exact : forall (phased : bool) (n : nat) (lines : list vline),
-  Forall in_range32 lines ->
   let o := vcf_text_import phased n lines false in
   vo_chr o = map l_chrom lines /\ vo_pos o = map l_pos lines /\ vo_name o = map id_text lines /\ vo_meta o = None
   /\ (forall i j, (i < n)%nat -> (j < length lines)%nat ->
@@ -231,9 +231,9 @@ Theorem C16_vcf_text_import_exact : forall (phased : bool) (n : nat) (lines : li
 Proof. exact vcf_text_import_exact. Qed.
 Print Assumptions C16_vcf_text_import_exact.
 Example C16_vcf_text_hyps_satisfiable :
-  Forall in_range32 w_lines /\ vo_pos (vcf_text_import true 2 w_lines false) = [100; 50; 2147483647]
-  /\ vo_pos (vcf_text_import false 2 w_lines true) = [50; 2147483647; 100].
-Proof. split; [exact w_lines_in_range | exact w_lines_result]. Qed.
+  vo_pos (vcf_text_import true 2 w_lines false) = [100; 50; 2147483647; 5000000000]
+  /\ vo_pos (vcf_text_import false 2 w_lines true) = [50; 2147483647; 5000000000; 100].
+Proof. exact w_lines_result. Qed.
 
 Theorem C16_vcf_text_import_grouped : forall (phased : bool) (n : nat) (lines : list vline),
   let recs := map (rec_of_line phased) lines in
@@ -256,11 +256,20 @@ Example C16_vcf_ref_alt_hyps_satisfiable :
   exists ls ls', ls <> ls' /\ map line_core ls = map line_core ls'.
 Proof. exists [mkL 1 5 None [65] [67] [(0, 1)]], [mkL 1 5 None [65; 67; 71] [65] [(0, 1)]]. split; [discriminate | reflexivity]. Qed.
 
-(** known finding C16-vcf-pos-int32-wrap: a coordinate beyond 2^31 - 1 is not reproduced by either importer *)
-Theorem C16_vcf_text_pos_refuted :
-  exists l : vline, l_pos l = 2147483648 /\ forall ph ag, vo_pos (vcf_text_import ph 1 [l] ag) = [-2147483648].
-Proof. exact vcf_text_pos_refuted. Qed.
-Print Assumptions C16_vcf_text_pos_refuted.
+(** regression witness for the repaired finding C16-vcf-pos-int32-wrap, about the FORMER importers ([old_vcf_text_import]:
+    vrnt_phypos.append(variant.POS), cyvcf2's 32-bit field): a coordinate beyond 2^31 - 1 was not reproduced by either of them; the
+    current importers reproduce the same line.  On coordinates a 32-bit field holds the former and the current importers coincide *)
+Theorem C16_vcf_text_pos_old_refuted :
+  exists l : vline, l_pos l = 2147483648 /\ (forall ph ag, vo_pos (old_vcf_text_import ph 1 [l] ag) = [-2147483648])
+                    /\ (forall ph ag, vo_pos (vcf_text_import ph 1 [l] ag) = [2147483648]).
+Proof. exact old_vcf_text_pos_refuted. Qed.
+Print Assumptions C16_vcf_text_pos_old_refuted.
+Theorem C16_vcf_text_old_agrees_in_range : forall ph n lines ag,
+  Forall in_range32 lines -> old_vcf_text_import ph n lines ag = vcf_text_import ph n lines ag.
+Proof. exact old_vcf_text_import_in_range. Qed.
+Print Assumptions C16_vcf_text_old_agrees_in_range.
+Example C16_vcf_text_old_hyps_satisfiable : Forall in_range32 (firstn 3 w_lines) /\ length (firstn 3 w_lines) = 3%nat.
+Proof. split; [exact w_lines_prefix_in_range | reflexivity]. Qed.
 
 (** the group metadata tiles the chromosome array: expanding (name, length) gives it back, lengths are positive *)
 Theorem C16_group_runs : forall l i, flat_map (fun e => repeat (fst (fst e)) (Z.to_nat (snd e))) (runs l i) = l /\ Forall (fun e => 0 < snd e) (runs l i).
